@@ -1636,16 +1636,17 @@ def rule_R26it(text, applied):
     `E.as_slice().iter()` (SmallVec::iter, small_vec.rs), is verified as the sequence that iterator yields: return type
     `Vec<T>`, body `vcopied(E.as_slice())` (verified helper: the elements of the slice, in order)."""
     m_text = mask(text)
-    rm = re.search(r"->\s*impl\s+Iterator\s*<\s*Item\s*=\s*(\w+)\s*>\s*\+\s*'_", m_text)
+    rm = re.search(r"->\s*impl\s+Iterator\s*<\s*Item\s*=\s*(\w+)\s*>(?:\s*\+\s*'_)?", m_text)
     if not rm:
-        raise ExtractError("R26it: return type is not `impl Iterator<Item = T> + '_` (lost anchor)")
+        raise ExtractError("R26it: return type is not `impl Iterator<Item = T> [+ '_]` (lost anchor)")
     text = text[:rm.start()] + _keep_newlines(text[rm.start():rm.end()], f"-> Vec<{rm.group(1)}>") + text[rm.end():]
     m_text = mask(text)
-    m = re.search(r"([\w\.\[\]]+?)\s*\.\s*iter\(\)\s*\.\s*copied\(\)", m_text)
+    m = re.search(r"\.\s*iter\(\)\s*\.\s*copied\(\)", m_text)
     if not m:
         raise ExtractError("R26it: `E.iter().copied()` not found (outside the subset)")
-    recv = "".join(text[m.start(1):m.end(1)].split())
-    text = text[:m.start()] + _keep_newlines(text[m.start():m.end()], f"vcopied({recv}.as_slice())") + text[m.end():]
+    start = _receiver_start(m_text, m.start())
+    recv = " ".join(text[start:m.start()].split())
+    text = text[:start] + _keep_newlines(text[start:m.end()], f"vcopied({recv}.as_slice())") + text[m.end():]
     applied.append("R26it")
     return text
 
